@@ -202,7 +202,16 @@ func defectBlock(kind string, n int, r *Rand) string {
 	case "request-without-body":
 		fmt.Fprintf(&sb, "POST /zrq%d\n  Request\n    Headers\n      {\"X-A\": \"y\"}\n  200 any\n", n)
 	case "response-without-body":
-		fmt.Fprintf(&sb, "GET /zrs%d\n  200\n    Headers\n      {\"X-B\": \"y\"}\n", n)
+		// any response code (the "no content" ones included), followed by one of the things that
+		// may come after a response which has no body at all
+		code := []int{200, 204, 304, 404, 100 + r.Intn(500)}[r.Intn(5)]
+		after := []string{"    Headers\n      {\"X-B\": \"y\"}\n", "", "POST /zrs%[1]dp\n  200 any\n", "  PASTE @zrsm%[1]d\nMACRO @zrsm%[1]d\n(\n  500 any\n)\n", "  (\n  )\n"}[r.Intn(5)]
+		fmt.Fprintf(&sb, "GET /zrs%d\n  %d\n", n, code)
+		if strings.Contains(after, "%[1]d") {
+			fmt.Fprintf(&sb, after, n)
+		} else {
+			sb.WriteString(after)
+		}
 	case "headers-not-object":
 		fmt.Fprintf(&sb, "GET /zho%d\n  200\n    Headers\n      [1, 2]\n    Body\n      {\"a\": 1}\n", n)
 	default:
